@@ -2,7 +2,7 @@
    refuses; the flag stays with every view handle; the guard of Cas.add.
    Only the property theorems (closed by `exact`), Print Assumptions and non-vacuity examples.
    parse_flt (float(str)) is universally quantified in every statement. *)
-From Cassis Require Import Base Heap Schema Canon Lex XmiDoc XmiLoad XmiLoadProofs.
+From Cassis Require Import Base Heap Schema Canon Lex XmiDoc XmiLoad XmiLoadProofs XmiLoadC17 XmiLoadC17Proofs.
 Open Scope Z_scope.
 
 (* A document that the lenient reader gets through its first loop (i.e. whose only problem, if any, are elements of
@@ -57,6 +57,45 @@ Theorem C17_strict_add_accepts_own : forall s h tn, contains_exact s tn = true -
 Proof. exact strict_add_accepts_own. Qed.
 Print Assumptions C17_strict_add_accepts_own.
 
+(* Second wave.  The entry point load_cas_from_xmi: whether the document is given as a string, an open file or a
+   pathlib.Path, and whatever `trusted` is, the reader runs with the caller's lenient flag - so the statements above
+   hold for every source kind and every value of trusted. *)
+Theorem C17_entry_source_trusted_irrelevant : forall parse_flt src src' s lenient t t' d,
+  load_entry parse_flt src s lenient t d = load_entry parse_flt src' s lenient t' d.
+Proof. exact entry_source_trusted_irrelevant. Qed.
+Print Assumptions C17_entry_source_trusted_irrelevant.
+Theorem C17_entry_strict_raises : forall parse_flt src s trusted d st,
+  pass1 parse_flt s true p1_init d = Ok st -> existsb (unknown s) d = true ->
+  load_entry parse_flt src s false trusted d = Err ETypeNotFound.
+Proof. exact entry_strict_raises. Qed.
+Print Assumptions C17_entry_strict_raises.
+Theorem C17_entry_lenient_is_filter : forall parse_flt src src' s t t' d,
+  dropped_ids_okb s d = true ->
+  load_entry parse_flt src s true t d = with_lenient true (load_entry parse_flt src' s false t' (drop_unknown s d)).
+Proof. exact entry_lenient_is_filter. Qed.
+Print Assumptions C17_entry_lenient_is_filter.
+
+(* "Exactly the CAS that the document without those structures would yield" includes the state of its id generators:
+   any sequence of later operations (adds of new structures through any handle, new views) receives the same xmi:ids
+   and sofaNums from the lenient CAS as from the CAS of the filtered document (an error of the load is the same error
+   on both sides); with all types known the flag does not move the generators either. *)
+Theorem C17_lenient_same_ids_later : forall parse_flt s d ops,
+  dropped_ids_okb s d = true ->
+  handed_out (load_xmi parse_flt s true d) ops = handed_out (load_xmi parse_flt s false (drop_unknown s d)) ops.
+Proof. exact lenient_same_ids_later. Qed.
+Print Assumptions C17_lenient_same_ids_later.
+Theorem C17_noninterference_same_ids_later : forall parse_flt s d ops,
+  forallb (fun e => negb (unknown s e)) d = true ->
+  handed_out (load_xmi parse_flt s true d) ops = handed_out (load_xmi parse_flt s false d) ops.
+Proof. exact noninterference_same_ids_later. Qed.
+Print Assumptions C17_noninterference_same_ids_later.
+(* the k-th later operation receives the xmi:id (first id after the load) + k *)
+Theorem C17_ids_fresh : forall g ops1 o ops2 out,
+  nth_error (run_ops g (ops1 ++ o :: ops2)) (List.length ops1) = Some out ->
+  hd 0 out = g_id g + Z.of_nat (List.length ops1).
+Proof. exact ids_fresh. Qed.
+Print Assumptions C17_ids_fresh.
+
 (* regression witnesses: the mechanisms before 779cf12, 1700993 and 32a3d1b violate the statements above *)
 Theorem C17_copy_handle_old_refuted : exists h n, h_lenient h = true /\ h_lenient (copy_handle_old h n) = false.
 Proof. exact copy_handle_old_refuted. Qed.
@@ -86,4 +125,25 @@ Example C17_premises_hold :
   | _ => False
   end /\
   map (fun e => xattr e "members") (filter is_view (drop_unknown ex_ts ex_doc)) = [Some "7"].
+Proof. vm_compute. repeat split; reflexivity. Qed.
+
+(* non-vacuity, second wave: only a named view is declared and the dropped element carries the highest xmi:id of the
+   document (23): the sofa of the implicit _InitialView gets 8 = (highest KEPT id) + 1 and sofaNum 2, and an add, a new
+   view and another add afterwards receive 9, (10, 3), 11 - as for the filtered document *)
+Definition ex_doc2 : xdoc :=
+  [mkX NS_CAS "NULL" [(A_ID, "0")] [];
+   mkX "http:///a/b.ecore" "Foo" [(A_ID, "7")] [];
+   mkX "http:///x/y.ecore" "Gone" [(A_ID, "23")] [];
+   mkX NS_CAS "Sofa" [(A_ID, "2"); ("sofaNum", "1"); ("sofaID", "second"); ("sofaString", "ab")] [];
+   mkX NS_CAS "View" [("sofa", "2"); ("members", "7 23")] []].
+Example C17_later_ids_hold :
+  dropped_ids_okb ex_ts ex_doc2 = true /\ existsb (unknown ex_ts) ex_doc2 = true /\
+  load_entry (fun _ => None) SrcPath ex_ts false true ex_doc2 = Err ETypeNotFound /\
+  match load_entry (fun _ => None) SrcPath ex_ts true false ex_doc2 with
+  | Ok c => map (fun nv => (fst nv, ls_id (lv_sofa (snd nv)), ls_num (lv_sofa (snd nv)))) (lc_views c)
+              = [("_InitialView", 8, 2); ("second", 2, 1)] /\ lc_lenient c = true
+  | _ => False
+  end /\
+  handed_out (load_xmi (fun _ => None) ex_ts true ex_doc2) [OpAdd; OpNewView; OpAdd] = Ok [[9]; [10; 3]; [11]] /\
+  handed_out (load_xmi (fun _ => None) ex_ts false (drop_unknown ex_ts ex_doc2)) [OpAdd; OpNewView; OpAdd] = Ok [[9]; [10; 3]; [11]].
 Proof. vm_compute. repeat split; reflexivity. Qed.
